@@ -98,6 +98,9 @@ ACCESSORS = ["states", "controls", "algebraics"]
 
 def check(case, ctx):
     sp = copy.deepcopy(case["spec"])
+    if any(c04.degenerate(c) for c in sp.get("constraints", [])):
+        ctx.count("relation_collapses_symbolically")
+        return []
     m = sp["method"]
     rng = np.random.default_rng(case["rng"])
     feats = {"method": m["cls"], "when": case["when"], "multistage": bool(sp.get("substages"))}
